@@ -42,6 +42,11 @@ Fixpoint add_defaults (h : heap) (i : info) (defaults : list (str * str)) : heap
       | None => add_defaults (mutate h i (MAddCol n u)) i rest
       end
   end.
+(* _update_columns leaves the register in the frame's column order (fix cd08929) *)
+Definition reorder (h : heap) (i : info) (names : list str) : heap :=
+  let d := dict_of h i in
+  put h (i_dict i) (ODict (flat_map (fun n => match dict_get n d with Some id => [(n, id)] | None => [] end) names
+                           ++ filter (fun nc => negb (mem_str (fst nc) names)) d)).
 Definition restrict (h : heap) (i : info) (keep : list str) : heap :=
   put h (i_dict i) (ODict (filter (fun nc => mem_str (fst nc) keep) (dict_of h i))).
 
@@ -58,6 +63,9 @@ Definition compat_ok (h : heap) (i : info) (defaults : list (str * str)) : bool 
              | None => true
              end) defaults.
 
+Fixpoint nodup_names (l : list str) : bool :=
+  match l with [] => true | n :: r => negb (mem_str n r) && nodup_names r end.
+
 (* one action; None = refused (InvalidTableCombineError / ColumnUnitException) *)
 Definition step (st : heap * frames) (a : action) : option (heap * frames) :=
   let (h, fs) := st in
@@ -67,7 +75,8 @@ Definition step (st : heap * frames) (a : action) : option (heap * frames) :=
       let infos := flat_map (fun s => match flook s fs with Some i => [i] | None => [] end) srcs in
       match combine h infos out method strict with
       | (h', Some (inl r)) =>
-          if compat_ok h' r defaults then Some (add_defaults h' r defaults, (k, r) :: fs) else None
+          if compat_ok h' r defaults && nodup_names out   (* repeated labels: InvalidNamingError *)
+          then Some (reorder (add_defaults h' r defaults) r (map fst defaults), (k, r) :: fs) else None
       | (h', Some (inr _)) => None
       | (h', None) => Some (h', fs)
       end
@@ -109,7 +118,7 @@ Definition obs : Type := bool * list (nat * list (str * str) * oview).
 
 (* a checked access: entries of vanished columns go, unregistered columns get their defaults *)
 Definition sync (h : heap) (i : info) (cols : list (str * str)) : heap :=
-  add_defaults (restrict h i (map fst cols)) i cols.
+  reorder (add_defaults (restrict h i (map fst cols)) i cols) i (map fst cols).
 Fixpoint sync_all (h : heap) (fs : frames) (l : list (nat * list (str * str) * oview)) : heap :=
   match l with
   | [] => h
